@@ -104,9 +104,16 @@ func unitC16(e common.Env, p *common.Part) {
 	}
 	mutBinding("all zero", func(b []byte) []byte { return make([]byte, len(b)) })
 	mutBinding("random", func(b []byte) []byte { r := make([]byte, len(b)); rand.Read(r); return r })
-	mutBinding("truncated", func(b []byte) []byte { return b[:len(b)-1] })
+	mutBinding("truncated", func(b []byte) []byte { return b[:max(0, len(b)-1)] })
 	mutBinding("empty", func(b []byte) []byte { return nil })
-	mutBinding("one bit flipped", func(b []byte) []byte { c := append([]byte{}, b...); c[7] ^= 0x10; return c })
+	mutBinding("one bit flipped", func(b []byte) []byte {
+		c := append([]byte{}, b...)
+		if len(c) == 0 {
+			return []byte{0x10}
+		}
+		c[len(c)/4] ^= 0x10
+		return c
+	})
 	// recorded on another connection: a complete valid handshake of node 2 replayed on a later connection
 	var recorded *comm.Handshake
 	var recMu sync.Mutex
